@@ -139,8 +139,13 @@ def main(argv=None):
             # they are neither obligations counted as discharged nor silently dropped
             cnt = e["discharged"] + e["refuted"] + e["undecided"]
             n_known_inst += e.get("known", 0)
-            n_obl += cnt
-            n_dis += e["discharged"]
+            if d.kind == "bounded":
+                # a bounded stand-in (native runs over an enumerated input set): reported, never counted as proved
+                bounded.append({"unit": uname, "obligation": oname, "instances": cnt, "held": e["discharged"],
+                                "bound": d.doc.split("BOUND:")[-1].strip() if "BOUND:" in d.doc else "see unit doc"})
+            else:
+                n_obl += cnt
+                n_dis += e["discharged"]
             solver_secs += e["secs"]
             for k, v in e["solvers"].items():
                 per_backend[k] += v
@@ -218,7 +223,7 @@ def main(argv=None):
 
         write_evidence(a.prop, a.tier, seed, agg=agg, summ=summ, n_obl=n_obl, n_dis=n_dis, solver_secs=solver_secs,
                        per_backend=per_backend, samples=samples, fn_rows=fn_rows, assumed=assumed,
-                       canaries=canaries, known=kf_lines, extra={"known_finding_instances": n_known_inst}, violations=vio_out, undecided=undecided, faults=faults,
+                       canaries=canaries, known=kf_lines, extra={"known_finding_instances": n_known_inst, "bounded_stand_ins": bounded}, violations=vio_out, undecided=undecided, faults=faults,
                        wall=wall, rc=rc)
     tot_paths = sum(len(a_["paths"]) for a_ in agg.values())
     print(f"{a.prop} [{a.tier}] units={len(agg)} paths={tot_paths} obligations={n_obl} discharged={n_dis} "
